@@ -146,84 +146,91 @@ def _impl_gen(case):
 
 # ------------------------------------------------------------------ kind 'prog'
 
-LIB = '''mem(X,[X|_]).
-mem(X,[_|T]) :- mem(X,T).
-app([],L,L).
-app([H|T],L,[H|R]) :- app(T,L,R).
-'''
+def _L(items, tail=None):
+    r = tail if tail is not None else ['a', '[]']
+    for x in reversed(items):
+        r = ['f', '.', [x, r]]
+    return r
+
+_V = lambda n: ['V', n]
+LIBAST = [
+    ['mem', [_V('X'), _L([_V('X')], _V('A'))], None],
+    ['mem', [_V('X'), _L([_V('B')], _V('T'))], ['call', 'mem', [_V('X'), _V('T')]]],
+    ['app', [['a', '[]'], _V('L'), _V('L')], None],
+    ['app', [_L([_V('H')], _V('T')), _V('L'), _L([_V('H')], _V('R'))], ['call', 'app', [_V('T'), _V('L'), _V('R')]]],
+]
 
 VARS = ['X', 'Y', 'Z', 'W', 'U']
+_CONSTS = [['a', 'a'], ['a', 'b'], ['a', 'c'], ['a', 'a'], ['a', 'b'], ['i', 1], ['i', 2], ['a', '[]']]
 
 def _tt(rng, vs, depth=2, pvar=0.45):
-    """term text over the variable names vs"""
+    """term AST over the variable names vs"""
     r = rng.random()
     if vs and r < pvar:
-        return rng.choice(vs)
+        return ['V', rng.choice(vs)]
     if depth <= 0 or r < pvar + 0.25:
-        return rng.choice(['a', 'b', 'c', 'a', 'b', '1', '2', '[]'])
+        return list(rng.choice(_CONSTS))
     q = rng.random()
     if q < 0.35:
-        return 'f(%s)' % _tt(rng, vs, depth - 1, pvar)
+        return ['f', 'f', [_tt(rng, vs, depth - 1, pvar)]]
     if q < 0.6:
-        return 'g(%s,%s)' % (_tt(rng, vs, depth - 1, pvar), _tt(rng, vs, depth - 1, pvar))
+        return ['f', 'g', [_tt(rng, vs, depth - 1, pvar), _tt(rng, vs, depth - 1, pvar)]]
     if q < 0.85:
-        return '[%s]' % ','.join(_tt(rng, vs, depth - 1, pvar) for _ in range(rng.choice([1, 2, 3])))
+        return _L([_tt(rng, vs, depth - 1, pvar) for _ in range(rng.choice([1, 2, 3]))])
     if vs:
-        return '[%s|%s]' % (_tt(rng, vs, depth - 1, pvar), rng.choice(vs))
-    return 'f(a)'
+        return _L([_tt(rng, vs, depth - 1, pvar)], ['V', rng.choice(vs)])
+    return ['f', 'f', [['a', 'a']]]
 
-def _call_text(rng, preds, vs):
+def _call_goal(rng, preds, vs):
     name, ar = rng.choice(preds)
-    if ar == 0:
-        return name
-    return '%s(%s)' % (name, ','.join(_tt(rng, vs, 1, 0.7) for _ in range(ar)))
+    return ['call', name, [_tt(rng, vs, 1, 0.7) for _ in range(ar)]]
 
 PPY = [0.05]
 
 def _goal(rng, preds, vs, depth, allow_cut=True):
     if rng.random() < PPY[0]:
-        return 'pyp(%s)' % rng.choice(vs)
+        return ['pyp', ['V', rng.choice(vs)]]
     r = rng.random()
     if r < 0.30 or depth <= 0:
-        return _call_text(rng, preds, vs)
+        return _call_goal(rng, preds, vs)
     if r < 0.40:
-        return '%s = %s' % (rng.choice(vs), _tt(rng, vs, 2))
+        return ['=', ['V', rng.choice(vs)], _tt(rng, vs, 2)]
     if r < 0.45:
-        return '%s \\= %s' % (rng.choice(vs), _tt(rng, vs, 1))
+        return ['\\=', ['V', rng.choice(vs)], _tt(rng, vs, 1)]
     if r < 0.53:
-        return '( %s -> %s ; %s )' % (_goal(rng, preds, vs, depth - 1, False), _conj(rng, preds, vs, depth - 1, 2, allow_cut), _conj(rng, preds, vs, depth - 1, 2, allow_cut))
+        return ['ite', _goal(rng, preds, vs, depth - 1, False), _conj(rng, preds, vs, depth - 1, 2, allow_cut), _conj(rng, preds, vs, depth - 1, 2, allow_cut)]
     if r < 0.60:
-        return '( %s ; %s )' % (_conj(rng, preds, vs, depth - 1, 2, allow_cut), _conj(rng, preds, vs, depth - 1, 2, allow_cut))
+        return ['or', _conj(rng, preds, vs, depth - 1, 2, allow_cut), _conj(rng, preds, vs, depth - 1, 2, allow_cut)]
     if r < 0.65:
-        return '\\+ %s' % _goal(rng, preds, vs, 0, False)
+        return ['not', _goal(rng, preds, vs, 0, False)]
     if r < 0.70 and allow_cut:
-        return '!'
+        return ['cut']
     if r < 0.76:
-        return 'once(%s)' % _call_text(rng, preds, vs)
+        return ['once', _call_goal(rng, preds, vs)]
     if r < 0.83:
-        return 'findall(%s, %s, %s)' % (_tt(rng, vs, 1, 0.8), _call_text(rng, preds, vs), rng.choice(vs))
-    if r < 0.87:
+        return ['findall', _tt(rng, vs, 1, 0.8), _call_goal(rng, preds, vs), ['V', rng.choice(vs)]]
+    if r < 0.88:
         name, ar = rng.choice(preds)
-        if ar == 0:
-            return 'call(%s)' % name
         args = [_tt(rng, vs, 1, 0.7) for _ in range(ar)]
         cut = rng.randrange(ar + 1)
-        g = name if cut == 0 else '%s(%s)' % (name, ','.join(args[:cut]))
-        return 'call(%s)' % ','.join([g] + args[cut:])
-    if r < 0.92:
-        return 'pyp(%s)' % rng.choice(vs)
-    if r < 0.96:
-        return 'mem(%s, [%s])' % (rng.choice(vs), ','.join(_tt(rng, vs, 1, 0.3) for _ in range(rng.choice([1, 2, 3]))))
-    return 'app(%s, %s, [%s])' % (rng.choice(vs), rng.choice(vs), ','.join(rng.choice(['a', 'b', 'c']) for _ in range(rng.choice([1, 2, 3]))))
+        g = ['a', name] if cut == 0 else ['f', name, args[:cut]]
+        return ['calln', g, args[cut:]]
+    if r < 0.95:
+        return ['call', 'mem', [['V', rng.choice(vs)], _L([_tt(rng, vs, 1, 0.3) for _ in range(rng.choice([1, 2, 3]))])]]
+    return ['call', 'app', [['V', rng.choice(vs)], ['V', rng.choice(vs)], _L([list(rng.choice(_CONSTS[:3])) for _ in range(rng.choice([1, 2, 3]))])]]
 
 def _conj(rng, preds, vs, depth, maxn, allow_cut=True):
     n = rng.randrange(1, maxn + 1)
-    return ', '.join(_goal(rng, preds, vs, depth, allow_cut) for _ in range(n))
+    gs = [_goal(rng, preds, vs, depth, allow_cut) for _ in range(n)]
+    return gs[0] if n == 1 else ['and', gs]
+
+MODES = ['exhaust', 'close', 'close', 'del', 'del', 'consumer_raise', 'throw', 'pyraise', 'pyraise',
+         'bounded_ok', 'bounded_raise', 'bounded_raise', 'bounded_stop']
 
 def _gen_prog_case(rng):
-    mode = rng.choice(['exhaust', 'close', 'close', 'del', 'del', 'consumer_raise', 'throw', 'pyraise', 'pyraise'])
+    mode = rng.choice(MODES)
     PPY[0] = 0.3 if mode == 'pyraise' else 0.04
-    lines = []
+    clauses = []
     preds = []
     dyn = []
     for i in range(rng.choice([1, 2, 2, 3])):
@@ -231,7 +238,7 @@ def _gen_prog_case(rng):
         name = 'b%d' % i
         for _ in range(rng.choice([1, 2, 2, 3, 3])):
             vs = rng.sample(VARS, 2)
-            lines.append('%s(%s).' % (name, ','.join(_tt(rng, vs, rng.choice([0, 1, 1, 2]), 0.15) for _ in range(ar))))
+            clauses.append([name, [_tt(rng, vs, rng.choice([0, 1, 1, 2]), 0.15) for _ in range(ar)], None])
         preds.append((name, ar))
     if rng.random() < 0.4:
         ar = rng.choice([1, 2])
@@ -244,13 +251,12 @@ def _gen_prog_case(rng):
         callees = list(preds)
         for _ in range(rng.choice([1, 2, 2, 3])):
             vs = rng.sample(VARS, rng.choice([2, 3, 4]))
-            head = name if ar == 0 else '%s(%s)' % (name, ','.join(_tt(rng, vs, 1, 0.75) for _ in range(ar)))
+            head = [_tt(rng, vs, 1, 0.75) for _ in range(ar)]
             if rng.random() < 0.15:
-                lines.append(head + '.')
+                clauses.append([name, head, None])
             else:
-                lines.append('%s :- %s.' % (head, _conj(rng, callees, vs, 2, 3)))
+                clauses.append([name, head, _conj(rng, callees, vs, 2, 3)])
         preds.append((name, ar))
-    src = LIB + '\n'.join(lines) + '\n'
     nv = rng.choice([2, 3, 4])
     name, ar = rng.choice([p for p in preds if p[0].startswith('p')] * 3 + preds)
     qargs = []
@@ -262,9 +268,8 @@ def _gen_prog_case(rng):
             qargs.append(terms.rand_term(rng, nv, 2, pvar=0.5, consts=False))
     stack = []
     if rng.random() < 0.35:
-        for _ in range(rng.choice([1, 2])):
-            # acyclic by construction: a variable is bound to a term over higher-numbered variables only
-            i = rng.randrange(nv)
+        for i in rng.sample(range(nv), rng.choice([1, 2])):
+            # acyclic by construction: distinct variables, each bound to a term over higher-numbered variables only
             t = terms.rand_term(rng, nv, 1, pvar=0.4, consts=False)
             def up(t):
                 if t[0] == 'v':
@@ -273,9 +278,13 @@ def _gen_prog_case(rng):
                     return ['f', t[1], [up(x) for x in t[2]]]
                 return t
             stack.append([['v', i], up(t)])
-    return {'kind': 'prog', 'src': src, 'dyn': dyn, 'query': [name, qargs], 'nvars': nv, 'stack': stack,
+    return {'kind': 'prog', 'clauses': clauses, 'dyn': dyn, 'query': [name, qargs], 'nvars': nv, 'stack': stack,
             'mode': mode, 'k': rng.choice([0, 1, 1, 2, 2, 3, 5]), 'j': rng.choice([1, 1, 2, 3, 4]),
-            'reclimit': rng.choice([0, 0, 0, 0, 60, 90, 130])}
+            'reclimit': rng.choice([0, 0, 0, 0, 60, 90, 130]) if not mode.startswith('bounded') else 0}
+
+def _src(case):
+    from props import c03_ref
+    return c03_ref.program_text(LIBAST + case['clauses'])
 
 class _Boom(Exception):
     pass
@@ -288,7 +297,7 @@ def _impl_prog(case):
     from yldprolog.compiler import compile_prolog_from_string
     yp = E.YP()
     try:
-        code = compile_prolog_from_string(case['src'])
+        code = compile_prolog_from_string(_src(case))
     except Exception as e:
         return ['uncompilable', type(e).__name__]
     yp.load_script_from_string(code, overwrite=False)
@@ -334,6 +343,7 @@ def _impl_prog(case):
     def nbound():
         return sum(1 for v in W if v._is_bound)
 
+    heldbad = [0]
     def drive(mode, k, j):
         """returns (answers, end, maxbound)"""
         state['calls'] = 0
@@ -386,6 +396,24 @@ def _impl_prog(case):
                         end = 'throw-swallowed'
                 q = None
             del q
+        elif mode.startswith('bounded'):
+            q = yp.query(name, args)
+            def proj(x):
+                body()
+                if len(answers) >= k + 1:
+                    if mode == 'bounded_raise':
+                        raise _Boom('projection')
+                    if mode == 'bounded_stop':
+                        raise StopIteration
+                return None
+            try:
+                yp.evaluate_bounded(q, proj)
+                end = 'bounded-returned'
+            except _Boom:
+                end = 'abandoned'
+            # the caller still holds the query object here
+            heldbad[0] += check_world(before)
+            q = None
         elif mode == 'consumer_raise':
             def consume():
                 for _ in yp.query(name, args):
@@ -431,7 +459,17 @@ def _impl_prog(case):
     for h in reversed(held):
         h.close()
     leaked = sum(1 for v in W if v._is_bound)
-    return {'ref': ref, 'refend': refend, 'bad0': bad0, 'k': k,
+    # independent reference interpreter (no destructive bindings at all)
+    from props import c03_ref
+    show = lambda ts: _canon(ts, nv)
+    try:
+        spec = list(c03_ref.answers(LIBAST + case['clauses'], case['dyn'], case['stack'], case['query'], nv, None, MAXANS, show))
+        spec1 = None
+        if case['mode'] == 'pyraise':
+            spec1 = list(c03_ref.answers(LIBAST + case['clauses'], case['dyn'], case['stack'], case['query'], nv, case['j'], MAXANS, show))
+    except c03_ref.Cyclic:
+        spec, spec1 = None, None
+    return {'ref': ref, 'refend': refend, 'bad0': bad0, 'k': k, 'spec': spec, 'spec1': spec1, 'heldbad': heldbad[0],
             'run1': [a1, e1], 'bad1': bad1, 'snap_restored': snap1 == snap0,
             'run2': [a2, e2], 'bad2': bad2, 'run3': [a3, e3], 'bad3': bad3,
             'leaked': leaked, 'maxbound': max(refmb, mb1), 'nworld': len(W)}
@@ -440,11 +478,11 @@ def _canon(ts, nv):
     m = {}
     def go(t):
         if t[0] == 'v':
-            if t[1] < nv:
-                return ['v', t[1]]
+            # all variables by first occurrence (the direction of a variable-variable binding is not
+            # observable; aliasing among the passed-in variables still is, they are all in the tuple)
             if t[1] not in m:
                 m[t[1]] = len(m)
-            return ['v', nv + m[t[1]]]
+            return ['v', m[t[1]]]
         if t[0] == 'f':
             return ['f', t[1], [go(a) for a in t[2]]]
         return t
@@ -476,20 +514,39 @@ def builtin_corpus():
         c(['unify', a, a], 1, ops)
     c(['arrays', [a], [a, b]], 1, ['next', 'next'])
     P = []
-    def p(src, q, nv, mode, k, j=1, stack=(), dyn=()):
-        P.append({'kind': 'prog', 'src': LIB + src, 'dyn': [list(x) for x in dyn], 'query': q, 'nvars': nv,
+    V = lambda n: ['V', n]
+    A = lambda n: ['a', n]
+    C = lambda n, *xs: ['call', n, list(xs)]
+    def p(clauses, q, nv, mode, k, j=1, stack=(), dyn=()):
+        P.append({'kind': 'prog', 'clauses': clauses, 'dyn': [list(x) for x in dyn], 'query': q, 'nvars': nv,
                   'stack': [list(s) for s in stack], 'mode': mode, 'k': k, 'j': j, 'reclimit': 0})
-    src1 = 'q(a). q(b). q(c).\nr(Y) :- q(X), pyp(Z), Y = f(X,Z).\n'
-    for mode in ('exhaust', 'close', 'del', 'consumer_raise', 'throw', 'pyraise'):
+    # q(a). q(b). q(c).  r(Y) :- q(X), pyp(Z), Y = g(X,Z).
+    src1 = [['q', [A('a')], None], ['q', [A('b')], None], ['q', [A('c')], None],
+            ['r', [V('Y')], ['and', [C('q', V('X')), ['pyp', V('Z')], ['=', V('Y'), ['f', 'g', [V('X'), V('Z')]]]]]]]
+    for mode in ('exhaust', 'close', 'del', 'consumer_raise', 'throw', 'pyraise', 'bounded_ok', 'bounded_raise', 'bounded_stop'):
         for k in (0, 1, 2):
             p(src1, ['r', [v(0)]], 2, mode, k, j=2)
-    src2 = 's(X,L) :- findall(Y, mem(Y,[a,b]), L), once(mem(X,L)), \\+ X = b, ( mem(X,[c]) -> fail ; true ).\n'
+    # s(X,L) :- findall(Y, mem(Y,[a,b]), L), once(mem(X,L)), \+ X = b, ( mem(X,[c]) -> fail_ ; X = X ).
+    src2 = [['s', [V('X'), V('L')], ['and', [['findall', V('Y'), C('mem', V('Y'), _L([A('a'), A('b')])), V('L')],
+                                               ['once', C('mem', V('X'), V('L'))], ['not', ['=', V('X'), A('b')]],
+                                               ['ite', C('mem', V('X'), _L([A('c')])), C('nope'), ['=', V('X'), V('X')]]]]]]
     for mode in ('exhaust', 'close', 'del'):
         p(src2, ['s', [v(0), v(1)]], 2, mode, 1)
-    src3 = 't(X,Y) :- app(X,Y,[a,b,c]), !.\nt(X,Y) :- X = Y.\nu(X) :- t(X,_) ; call(t, X, [c]).\n'
+    # t(X,Y) :- app(X,Y,[a,b,c]), !.   t(X,Y) :- X = Y.   u(X) :- t(X,Z) ; call(t, X, [c]).
+    src3 = [['t', [V('X'), V('Y')], ['and', [C('app', V('X'), V('Y'), _L([A('a'), A('b'), A('c')])), ['cut']]]],
+            ['t', [V('X'), V('Y')], ['=', V('X'), V('Y')]],
+            ['u', [V('X')], ['or', C('t', V('X'), V('Z')), ['calln', A('t'), [V('X'), _L([A('c')])]]]]]
     for mode in ('exhaust', 'close', 'del', 'throw'):
         p(src3, ['u', [v(0)]], 1, mode, 1)
-    p('w(X) :- d0(X, Y), d0(Y, _).\n', ['w', [v(0)]], 1, 'del', 1, dyn=[('d0', [a, b]), ('d0', [b, v(0)]), ('d0', [v(0), v(0)])])
+    # aliasing that outlives an enumeration: same(X,X). pick(P) :- same(P,C), q(C).
+    src4 = [['q', [A('a')], None], ['q', [A('b')], None], ['q', [A('c')], None], ['same', [V('X'), V('X')], None],
+            ['pick', [V('P')], ['and', [C('same', V('P'), V('C')), C('q', V('C'))]]],
+            ['wrap', [['f', 'f', [V('P')]]], ['and', [['=', V('P'), V('C')], C('q', V('C'))]]]]
+    for mode in ('exhaust', 'close', 'del'):
+        p(src4, ['pick', [v(0)]], 1, mode, 1)
+        p(src4, ['wrap', [v(0)]], 1, mode, 2)
+    p([['w', [V('X')], ['and', [C('d0', V('X'), V('Y')), C('d0', V('Y'), V('Z'))]]]], ['w', [v(0)]], 1, 'del', 1,
+      dyn=[('d0', [a, b]), ('d0', [b, v(0)]), ('d0', [v(0), v(0)])])
     return L + P
 
 def impl(case):
@@ -546,6 +603,8 @@ def oracle(case, io):
     for key, what in (('bad0', 'the exhaustive reference run'), ('bad1', 'the run under test'), ('bad2', 'its repetition'), ('bad3', 'the final exhaustive run')):
         if io[key]:
             return '%d Variables are not in their pre-run binding state after %s (mode %s, k=%d)' % (io[key], what, case['mode'], io['k'])
+    if io['heldbad']:
+        return '%d Variables are still bound after evaluate_bounded was left (mode %s) while the caller holds the query' % (io['heldbad'], case['mode'])
     if not io['snap_restored']:
         return 'passed-in variables do not have their pre-run values'
     if io['leaked']:
@@ -563,6 +622,15 @@ def oracle(case, io):
         return 'an exception thrown into the query generator did not come back'
     if case['mode'] == 'exhaust' and not case.get('reclimit') and io['run1'] != [ref, io['refend']]:
         return 'second exhaustive run differs from the first'
+    if io['spec'] is not None and not io['refend'].startswith('raised'):
+        sa, se = io['spec']
+        if [ref, io['refend']] != [sa, se]:
+            n = min(len(ref), len(sa))
+            i = next((i for i in range(n) if ref[i] != sa[i]), n)
+            return 'the bindings visible at answer %d are not that answer\'s (reference interpreter: %r, observed: %r)' % (
+                i, sa[i] if i < len(sa) else 'no more answers', ref[i] if i < len(ref) else 'no more answers')
+        if io['spec1'] is not None and not case.get('reclimit') and io['run1'] != io['spec1']:
+            return 'run with the raising Python predicate differs from the reference interpreter'
     return None
 
 def nontrivial(case, io):
@@ -590,7 +658,8 @@ def describe(case):
             goal = '_G%d.unify(%s)' % (t[1], terms.show_term(t[2]))
         return {'stack': ['%s = %s' % (terms.show_term(a), terms.show_term(b)) for a, b in case['stack']],
                 'generator': goal, 'operations': case['ops']}
-    return {'program': case['src'].split('\n'), 'dynamic_facts': case['dyn'],
+    return {'program': _src(case).split('\n'), 'dynamic_facts': case['dyn'],
+            'active_bindings': ['%s = %s' % (terms.show_term(a), terms.show_term(b)) for a, b in case['stack']],
             'query': '%s(%s)' % (case['query'][0], ', '.join(terms.show_term(a) for a in case['query'][1])),
             'mode': case['mode'], 'k': case['k'], 'pyp_raises_at_call': case['j'] if case['mode'] == 'pyraise' else None}
 
@@ -615,11 +684,17 @@ def shrink(case):
                         c = dict(case); tt = list(t); tt[key] = a; c['target'] = tt
                         yield c
         return
-    lines = case['src'][len(LIB):].split('\n')
-    for i in range(len(lines)):
-        if lines[i].strip():
-            c = dict(case); c['src'] = LIB + '\n'.join(lines[:i] + lines[i + 1:])
-            yield c
+    cl = case['clauses']
+    for i in range(len(cl)):
+        c = dict(case); c['clauses'] = cl[:i] + cl[i + 1:]
+        yield c
+    for i in range(len(cl)):
+        b = cl[i][2]
+        if b and b[0] == 'and':
+            for j in range(len(b[1])):
+                rest = b[1][:j] + b[1][j + 1:]
+                c = dict(case); c['clauses'] = cl[:i] + [[cl[i][0], cl[i][1], rest[0] if len(rest) == 1 else ['and', rest]]] + cl[i + 1:]
+                yield c
     for i in range(len(case['dyn'])):
         c = dict(case); c['dyn'] = case['dyn'][:i] + case['dyn'][i + 1:]
         yield c
